@@ -212,6 +212,18 @@ func genInbound(rt *rapid.T, device uint16, toEquip bool, t4 time.Duration, allo
 			e.blk, e.what, e.valid = cur[0], "bad-checksum", false
 			e.raw = e.blk.Bytes()
 			e.raw[len(e.raw)-1] ^= 0x55
+		case k == 18 && allowCorrupt && rapid.Bool().Draw(rt, "shortLen"):
+			// the length character is corrupted DOWNWARD (still >= 10): the receiver reads fewer
+			// characters than were sent, the checksum fails, and what is left on the line - here ENQ
+			// and the complete image of another well-formed block addressed to the receiver - is the
+			// rest of THIS transmission, not new traffic: nothing of it may be acknowledged or delivered
+			ghost := e4.Split(e4.Message{Device: device, R: !toEquip, Stream: 9, Function: 9, Sys: 0x6805aaaa, Body: []byte{0x41, 0x05, 'G', 'H', 'O', 'S', 'T'}})[0].Bytes()
+			blk := cur[0]
+			blk.Body = append(append([]byte{0x21, byte(2 + len(ghost))}, 0x05), ghost...)
+			blk.Body = append(blk.Body, 0x00)
+			e.blk, e.what, e.valid = blk, "short-length-with-ghost", false
+			e.raw = blk.Bytes()
+			e.raw[0] = 10 + byte(rapid.IntRange(0, 3).Draw(rt, "shortBy"))
 		case k == 18 && allowCorrupt:
 			e.blk, e.what, e.valid = cur[0], "bad-length", false
 			e.raw = e.blk.Bytes()
@@ -327,7 +339,7 @@ func (d *s1Deliveries) snapshot() [][]byte {
 }
 
 func TestC17Line(t *testing.T) {
-	ev.Rule("a real secs1 connection (host/equipment x active/passive, device id 0..0x7FFF) against the reference E4 line peer in virtual time (T1 50 ms, T2 150 ms, T4 150 ms). Outbound: messages with body lengths 0, 2, 243..246, 487..490, 731..733, 976, 977 and drawn lengths to 8 KiB, every stream/function/W/system-bytes value, sent by SendDataMessage and ForwardDataMessage, with the peer NAK-ing a drawn block once; every acknowledged block image must equal the reference split. Inbound (optionally after T4 was changed at runtime to 60 / 400 ms through UpdateConfigOptions): block sequences over the statement's alphabet plus bad checksum / bad length images, sent character by character by the peer; well-formed blocks must be ACKed, corrupt ones NAKed, the handler must receive exactly the messages of the reference assembler, and afterwards the link must still be Selected and deliver a probe message. Duplex (library = host): the application starts a send between two blocks of an inbound 2-4 block message, the peer (master) contends, the remaining inbound blocks are taken inside the library's yielded send; the inbound message must be delivered once and intact and the postponed send must follow with reference block images; non-trivial = a message spans >= 2 blocks or a non-valid block is followed by a delivered message")
+	ev.Rule("a real secs1 connection (host/equipment x active/passive, device id 0..0x7FFF) against the reference E4 line peer in virtual time (T1 50 ms, T2 150 ms, T4 150 ms). Outbound: messages with body lengths 0, 2, 243..246, 487..490, 731..733, 976, 977 and drawn lengths to 8 KiB, every stream/function/W/system-bytes value, sent by SendDataMessage and ForwardDataMessage, with the peer NAK-ing a drawn block once; every acknowledged block image must equal the reference split. Inbound (optionally after T4 was changed at runtime to 60 / 400 ms through UpdateConfigOptions): block sequences over the statement's alphabet plus bad checksum / bad length images (incl. a length character lowered so that ENQ and a complete ghost block image are left over on the line), sent character by character by the peer; well-formed blocks must be ACKed, corrupt ones NAKed, the handler must receive exactly the messages of the reference assembler, and afterwards the link must still be Selected and deliver a probe message. Duplex (library = host): the application starts a send between two blocks of an inbound 2-4 block message, the peer (master) contends, the remaining inbound blocks are taken inside the library's yielded send; the inbound message must be delivered once and intact and the postponed send must follow with reference block images; non-trivial = a message spans >= 2 blocks or a non-valid block is followed by a delivered message")
 	vt.Bubble(t, func(t *testing.T) {
 		vt.CheckBubble(t, 6000, 300000, func(rt *rapid.T) { runC17Line(rt) })
 	})
